@@ -7,27 +7,28 @@
 (***************************************************************************)
 EXTENDS Integers, Sequences, FiniteSets, TLC, Json
 
-CONSTANTS MaxPubs, MaxSubs, MaxTopics, MaxWriters, MaxReaders, TopicNames, MaxOps,
+CONSTANTS MaxPubs, MaxSubs, MaxTopics, MaxWriters, MaxReaders, MaxCfts, TopicNames, MaxOps,
           Warm   \* harness parameter: create/delete cycles done before the replay so that the 8-bit entity counters wrap inside it
 
 VARIABLES pubs, subs, topics, writers, readers,   \* id -> record; every created entity stays in the map
+          cfts,                                    \* content filtered topics: id -> [live, topic]
           gone,                                    \* participant deleted
           nOps, lastOp
-vars == <<pubs, subs, topics, writers, readers, gone, nOps, lastOp>>
-view == <<pubs, subs, topics, writers, readers, gone, nOps>>
+vars == <<pubs, subs, topics, writers, readers, cfts, gone, nOps, lastOp>>
+view == <<pubs, subs, topics, writers, readers, cfts, gone, nOps>>
 
 Empty == [x \in {} |-> 0]
 Ext(f, k, v) == [x \in DOMAIN f \cup {k} |-> IF x = k THEN v ELSE f[x]]
 Live(f) == {k \in DOMAIN f : f[k].live}
 Next1(f) == Cardinality(DOMAIN f) + 1
 
-Init == /\ pubs = Empty /\ subs = Empty /\ topics = Empty /\ writers = Empty /\ readers = Empty
+Init == /\ pubs = Empty /\ subs = Empty /\ topics = Empty /\ writers = Empty /\ readers = Empty /\ cfts = Empty
         /\ gone = FALSE /\ nOps = 0 /\ lastOp = [op |-> "Init"]
 
 Proj == [pubs |-> [k \in DOMAIN pubs |-> pubs[k].live], subs |-> [k \in DOMAIN subs |-> subs[k].live],
          topics |-> [k \in DOMAIN topics |-> topics[k].live], writers |-> [k \in DOMAIN writers |-> writers[k].live],
-         readers |-> [k \in DOMAIN readers |-> readers[k].live],
-         aux |-> <<pubs, subs, topics, writers, readers, gone, nOps>>]
+         readers |-> [k \in DOMAIN readers |-> readers[k].live], cfts |-> [k \in DOMAIN cfts |-> cfts[k].live],
+         aux |-> <<pubs, subs, topics, writers, readers, cfts, gone, nOps>>]
 
 Op(name, args, res, tag) == [op |-> name, a |-> args, expect |-> [res |-> res], tag |-> tag]
 Tick == nOps < MaxOps /\ nOps' = nOps + 1 /\ ~gone
@@ -36,6 +37,7 @@ Same(vs) == UNCHANGED vs
 WritersOf(p) == {w \in Live(writers) : writers[w].pub = p}
 ReadersOf(s) == {r \in Live(readers) : readers[r].sub = s}
 UsersOf(t) == {w \in Live(writers) : writers[w].topic = t} \cup {r \in Live(readers) : readers[r].topic = t}
+CftsOf(t) == {c \in Live(cfts) : cfts[c].topic = t}
 
 \* a deleted topic whose name is used again by a live topic
 Aliased(t) == \E u \in Live(topics) : topics[u].name = topics[t].name
@@ -43,65 +45,77 @@ Aliased(t) == \E u \in Live(topics) : topics[u].name = topics[t].name
 CreatePub ==
     /\ Tick /\ Cardinality(DOMAIN pubs) < MaxPubs
     /\ pubs' = Ext(pubs, Next1(pubs), [live |-> TRUE])
-    /\ Same(<<subs, topics, writers, readers, gone>>)
+    /\ Same(<<subs, topics, writers, readers, gone, cfts>>)
     /\ lastOp' = Op("CreatePub", [id |-> Next1(pubs)], "Ok", "create")
 DeletePub(p) ==
     /\ Tick /\ p \in DOMAIN pubs
     /\ IF ~pubs[p].live THEN Same(<<pubs>>) /\ lastOp' = Op("DeletePub", [id |-> p], "AlreadyDeleted", "delete:already-deleted")
        ELSE IF WritersOf(p) # {} THEN Same(<<pubs>>) /\ lastOp' = Op("DeletePub", [id |-> p], "PreconditionNotMet", "delete:not-empty")
        ELSE pubs' = [pubs EXCEPT ![p].live = FALSE] /\ lastOp' = Op("DeletePub", [id |-> p], "Ok", "delete")
-    /\ Same(<<subs, topics, writers, readers, gone>>)
+    /\ Same(<<subs, topics, writers, readers, gone, cfts>>)
 CreateSub ==
     /\ Tick /\ Cardinality(DOMAIN subs) < MaxSubs
     /\ subs' = Ext(subs, Next1(subs), [live |-> TRUE])
-    /\ Same(<<pubs, topics, writers, readers, gone>>)
+    /\ Same(<<pubs, topics, writers, readers, gone, cfts>>)
     /\ lastOp' = Op("CreateSub", [id |-> Next1(subs)], "Ok", "create")
 DeleteSub(s) ==
     /\ Tick /\ s \in DOMAIN subs
     /\ IF ~subs[s].live THEN Same(<<subs>>) /\ lastOp' = Op("DeleteSub", [id |-> s], "AlreadyDeleted", "delete:already-deleted")
        ELSE IF ReadersOf(s) # {} THEN Same(<<subs>>) /\ lastOp' = Op("DeleteSub", [id |-> s], "PreconditionNotMet", "delete:not-empty")
        ELSE subs' = [subs EXCEPT ![s].live = FALSE] /\ lastOp' = Op("DeleteSub", [id |-> s], "Ok", "delete")
-    /\ Same(<<pubs, topics, writers, readers, gone>>)
+    /\ Same(<<pubs, topics, writers, readers, gone, cfts>>)
 CreateTopic(name) ==
     /\ Tick /\ Cardinality(DOMAIN topics) < MaxTopics
     /\ IF \E t \in Live(topics) : topics[t].name = name
        THEN Same(<<topics>>) /\ lastOp' = Op("CreateTopic", [name |-> name, id |-> 0], "PreconditionNotMet", "create:duplicate-topic-name")
        ELSE topics' = Ext(topics, Next1(topics), [live |-> TRUE, name |-> name])
             /\ lastOp' = Op("CreateTopic", [name |-> name, id |-> Next1(topics)], "Ok", "create")
-    /\ Same(<<pubs, subs, writers, readers, gone>>)
+    /\ Same(<<pubs, subs, writers, readers, gone, cfts>>)
 DeleteTopic(t) ==
     /\ Tick /\ t \in DOMAIN topics
     /\ IF ~topics[t].live THEN Same(<<topics>>) /\ lastOp' = Op("DeleteTopic", [id |-> t], "AlreadyDeleted",
                                                                 IF Aliased(t) THEN "delete:deleted-topic-aliased-by-new-topic-of-same-name"
                                                                 ELSE "delete:already-deleted")
        ELSE IF UsersOf(t) # {} THEN Same(<<topics>>) /\ lastOp' = Op("DeleteTopic", [id |-> t], "PreconditionNotMet", "delete:topic-in-use")
+       ELSE IF CftsOf(t) # {} THEN Same(<<topics>>) /\ lastOp' = Op("DeleteTopic", [id |-> t], "PreconditionNotMet", "delete:topic-related-to-content-filtered-topic")
        ELSE topics' = [topics EXCEPT ![t].live = FALSE] /\ lastOp' = Op("DeleteTopic", [id |-> t], "Ok", "delete")
-    /\ Same(<<pubs, subs, writers, readers, gone>>)
+    /\ Same(<<pubs, subs, writers, readers, gone, cfts>>)
 CreateWriter(p, t) ==
     /\ Tick /\ p \in DOMAIN pubs /\ t \in Live(topics) /\ Cardinality(DOMAIN writers) < MaxWriters
     /\ IF ~pubs[p].live THEN Same(<<writers>>) /\ lastOp' = Op("CreateWriter", [pub |-> p, topic |-> t, id |-> 0], "AlreadyDeleted", "create:parent-deleted")
        ELSE writers' = Ext(writers, Next1(writers), [live |-> TRUE, pub |-> p, topic |-> t])
             /\ lastOp' = Op("CreateWriter", [pub |-> p, topic |-> t, id |-> Next1(writers)], "Ok", "create")
-    /\ Same(<<pubs, subs, topics, readers, gone>>)
+    /\ Same(<<pubs, subs, topics, readers, gone, cfts>>)
 DeleteWriter(p, w) ==
     /\ Tick /\ p \in Live(pubs) /\ w \in DOMAIN writers
     /\ IF ~writers[w].live THEN Same(<<writers>>) /\ lastOp' = Op("DeleteWriter", [pub |-> p, id |-> w], "AlreadyDeleted", "delete:already-deleted")
        \* C36 does not say which error a delete through the wrong parent gives; it must fail and change nothing
        ELSE IF writers[w].pub # p THEN Same(<<writers>>) /\ lastOp' = Op("DeleteWriter", [pub |-> p, id |-> w], [anyOf |-> {"PreconditionNotMet", "AlreadyDeleted", "BadParameter"}], "delete:wrong-parent")
        ELSE writers' = [writers EXCEPT ![w].live = FALSE] /\ lastOp' = Op("DeleteWriter", [pub |-> p, id |-> w], "Ok", "delete")
-    /\ Same(<<pubs, subs, topics, readers, gone>>)
+    /\ Same(<<pubs, subs, topics, readers, gone, cfts>>)
 CreateReader(s, t) ==
     /\ Tick /\ s \in DOMAIN subs /\ t \in Live(topics) /\ Cardinality(DOMAIN readers) < MaxReaders
     /\ IF ~subs[s].live THEN Same(<<readers>>) /\ lastOp' = Op("CreateReader", [sub |-> s, topic |-> t, id |-> 0], "AlreadyDeleted", "create:parent-deleted")
        ELSE readers' = Ext(readers, Next1(readers), [live |-> TRUE, sub |-> s, topic |-> t])
             /\ lastOp' = Op("CreateReader", [sub |-> s, topic |-> t, id |-> Next1(readers)], "Ok", "create")
-    /\ Same(<<pubs, subs, topics, writers, gone>>)
+    /\ Same(<<pubs, subs, topics, writers, gone, cfts>>)
 DeleteReader(s, r) ==
     /\ Tick /\ s \in Live(subs) /\ r \in DOMAIN readers
     /\ IF ~readers[r].live THEN Same(<<readers>>) /\ lastOp' = Op("DeleteReader", [sub |-> s, id |-> r], "AlreadyDeleted", "delete:already-deleted")
        ELSE IF readers[r].sub # s THEN Same(<<readers>>) /\ lastOp' = Op("DeleteReader", [sub |-> s, id |-> r], [anyOf |-> {"PreconditionNotMet", "AlreadyDeleted", "BadParameter"}], "delete:wrong-parent")
        ELSE readers' = [readers EXCEPT ![r].live = FALSE] /\ lastOp' = Op("DeleteReader", [sub |-> s, id |-> r], "Ok", "delete")
-    /\ Same(<<pubs, subs, topics, writers, gone>>)
+    /\ Same(<<pubs, subs, topics, writers, gone, cfts>>)
+\* content filtered topics: created on a live topic, deleted explicitly or by delete_contained_entities
+CreateCft(t) ==
+    /\ Tick /\ t \in Live(topics) /\ Cardinality(DOMAIN cfts) < MaxCfts
+    /\ cfts' = Ext(cfts, Next1(cfts), [live |-> TRUE, topic |-> t])
+    /\ Same(<<pubs, subs, topics, writers, readers, gone>>)
+    /\ lastOp' = Op("CreateCft", [topic |-> t, id |-> Next1(cfts)], "Ok", "create")
+DeleteCft(c) ==
+    /\ Tick /\ c \in DOMAIN cfts
+    /\ IF ~cfts[c].live THEN Same(<<cfts>>) /\ lastOp' = Op("DeleteCft", [id |-> c], "AlreadyDeleted", "delete:already-deleted")
+       ELSE cfts' = [cfts EXCEPT ![c].live = FALSE] /\ lastOp' = Op("DeleteCft", [id |-> c], "Ok", "delete")
+    /\ Same(<<pubs, subs, topics, writers, readers, gone>>)
 \* any operation on an entity: AlreadyDeleted iff the entity was deleted
 Use(kind, id) ==
     /\ Tick
@@ -112,19 +126,19 @@ Use(kind, id) ==
                           IF f[id].live THEN "use"
                           ELSE IF kind = "topic" /\ Aliased(id) THEN "use:deleted-topic-aliased-by-new-topic-of-same-name"
                           ELSE "use:deleted-entity")
-    /\ Same(<<pubs, subs, topics, writers, readers, gone>>)
+    /\ Same(<<pubs, subs, topics, writers, readers, gone, cfts>>)
 Kill(f) == [k \in DOMAIN f |-> [f[k] EXCEPT !.live = FALSE]]
 DeleteContained ==
     /\ Tick
-    /\ pubs' = Kill(pubs) /\ subs' = Kill(subs) /\ topics' = Kill(topics) /\ writers' = Kill(writers) /\ readers' = Kill(readers)
+    /\ pubs' = Kill(pubs) /\ subs' = Kill(subs) /\ topics' = Kill(topics) /\ writers' = Kill(writers) /\ readers' = Kill(readers) /\ cfts' = Kill(cfts)
     /\ Same(<<gone>>)
     /\ lastOp' = Op("DeleteContained", [x |-> 0], "Ok", "delete-contained")
 DeleteParticipant ==
     /\ Tick
-    /\ IF Live(pubs) \cup Live(subs) \cup Live(topics) # {}
+    /\ IF Live(pubs) \cup Live(subs) \cup Live(topics) \cup Live(cfts) # {}
        THEN Same(<<gone>>) /\ lastOp' = Op("DeleteParticipant", [x |-> 0], "PreconditionNotMet", "delete:not-empty")
        ELSE gone' = TRUE /\ lastOp' = Op("DeleteParticipant", [x |-> 0], "Ok", "delete-participant")
-    /\ Same(<<pubs, subs, topics, writers, readers>>)
+    /\ Same(<<pubs, subs, topics, writers, readers, cfts>>)
 
 Emit == PrintT(<<"EDGE", ToJson([s |-> Proj, o |-> lastOp', d |-> Proj'])>>)
 Step ==
@@ -132,7 +146,8 @@ Step ==
     \/ \E n \in TopicNames : CreateTopic(n)
     \/ \E p \in 1..MaxPubs : DeletePub(p) \/ \E t \in 1..MaxTopics : CreateWriter(p, t) \/ \E w \in 1..MaxWriters : DeleteWriter(p, w)
     \/ \E s \in 1..MaxSubs : DeleteSub(s) \/ \E t \in 1..MaxTopics : CreateReader(s, t) \/ \E r \in 1..MaxReaders : DeleteReader(s, r)
-    \/ \E t \in 1..MaxTopics : DeleteTopic(t)
+    \/ \E t \in 1..MaxTopics : DeleteTopic(t) \/ CreateCft(t)
+    \/ \E c \in 1..MaxCfts : DeleteCft(c)
     \/ \E k \in {"pub", "sub", "topic", "writer", "reader"}, id \in 1..2 : Use(k, id)
 Next == Step /\ Emit
 Spec == Init /\ [][Next]_vars
@@ -141,5 +156,6 @@ Spec == Init /\ [][Next]_vars
 TreeConsistent ==
     /\ \A w \in Live(writers) : pubs[writers[w].pub].live /\ topics[writers[w].topic].live
     /\ \A r \in Live(readers) : subs[readers[r].sub].live /\ topics[readers[r].topic].live
-    /\ gone => Live(pubs) \cup Live(subs) \cup Live(topics) \cup Live(writers) \cup Live(readers) = {}
+    /\ gone => Live(pubs) \cup Live(subs) \cup Live(topics) \cup Live(writers) \cup Live(readers) \cup Live(cfts) = {}
+    /\ \A c \in Live(cfts) : topics[cfts[c].topic].live
 =============================================================================
